@@ -214,7 +214,9 @@ def run_cut_loop(ex, stmt, st, key, lc, guard_fn, bind_fn, advance_fn, label):
                             for j, inv in enumerate(invs):
                                 ex.goal('%s.preserved#%d' % (name, j), s_e, ex.spec(inv, s_e), {'inv': inv})
                             for j, ip in enumerate((lc or {}).get('iter_post', [])):
-                                # obligation on every completed iteration (in terms of the iteration's own variables)
+                                # obligation on every completed iteration (in terms of the iteration's own variables;
+                                # iter_start(e) is the value of e right after the loop targets were bound)
+                                ex._iter_state = pre
                                 ex.goal('%s.iteration#%d' % (name, j), s_e, ex.spec(ip, s_e), {'iteration_post': ip})
                         elif oc == Outcome.BREAK:
                             s_e.trace.append('loop%s:break' % key)
@@ -327,9 +329,10 @@ def _for_over(ex, stmt, st, it, key, lc):
             o = s.objs[it.oid]
             k = o['K']
             elem = o['AT'](ex, s, k)
-            o['K'] = SInt(z3.simplify(ex.z_int(k) + 1)) if isinstance(k, Sym) else k + 1
             res = []
             for s1, e in elem:
+                # (the element lookup may fork: the position is advanced in every resulting state)
+                s1.objs[it.oid]['K'] = SInt(z3.simplify(ex.z_int(k) + 1)) if isinstance(k, Sym) else k + 1
                 v = (k, e) if it.kind == 'enum_iter' else e
                 res.extend(ex.assign(stmt.target, v, s1))
             return res
